@@ -26,7 +26,7 @@ TRUSTED = [
 
 
 def case(runner, r, base, i, profile, rich_ok, malformed, oc, ereqs, epend, sreqs, spend, wreqs):
-    model = genlib.rand_sm_model(r)
+    model = genlib.with_meta(r, genlib.rand_sm_model(r))
     if r.random() < 0.3:
         model = engtpl.with_eventless_rows(r, model)
         oc.stat("tables_with_rows_without_event")
